@@ -338,6 +338,15 @@ func c16Case(u *U, v cty.Value, ct *TS) {
 }
 
 func runC16(c *Ctx) {
+	// names and strings that need escaping (shared with C15), also with an unknown member
+	for _, hv := range nameHazardValues() {
+		hv := hv
+		c.Unit(func(u *U) {
+			for _, ct := range dynVariants(hv.t, 8) {
+				c16Case(u, hv.v, ct)
+			}
+		})
+	}
 	for _, t := range codecTypes(c.Thorough) {
 		t := t
 		o := defaultValOpts(c.Thorough)
